@@ -36,6 +36,12 @@ CLAIMED = {
   text="Decides necessary conditions of the NACK helper contract for all 2^32 pairs / all input lists at once: RNG-STOP - at every callback call site of Range the most recent callback result is entailed true (no call can follow a false result), RNG-ARG - the first argument is PacketID and every other argument is congruent mod 2^16 to PacketID+k with 1<=k<=16 (k-1 a bit index forced below 16 by the dominating bit test), PL - PacketList's closure returns the constant true on every path, appends exactly its argument to an initially empty list, and that list is returned after Range, NPS-SHIFT - the bit OR-ed into LostPackets is 1 << s with s congruent to (element - PacketID - 1) mod 2^16 as program integers (not masked or offset), NPS-DIST - at that site the modular distance is entailed <= 16. Not decided: that every set bit is visited in ascending order and that no requested number is missing from the pairs (needs a bit-level loop invariant outside the linear domain) - stated as not covered; a reader must not take this as full equivalence of the covered sets.",
   note="Trusted: go/ssa, checker/num (wrap congruences, bit-test refinement, load value numbering between stores). Assumes the callback does not modify the pair it iterates.",
   design="DESIGN.md §2 C12"),
+ "C16": dict(
+  level="other",
+  technique="static analysis: bit-provenance abstract interpretation of go/ssa (bit vectors of sources, abstract byte buffers with strided cells, if-then-else joins) composing encoder and decoder maps, compared with RFC layout tables; constant propagation over all first octets; numeric engine for the count guard",
+  text="For every value at once (the maps are symbolic in the field/wire bits, not sampled): RT - for Header, ReceptionReport (24-bit loss), RunLengthChunk, CCFB metric block, NACK pair, SLI entry and FIR entry the encoder's map wire bit <- field bit composed with the decoder's map field bit <- wire bit is the identity in both directions; ENC/DEC - both maps equal the RFC layout (offset, width, big-endian order, constant bits); NR - a not-received metric block decodes to zero fields; CNT - Header.Marshal returns nil only with Count <= 31; VER - Header.Unmarshal rejects all 192 first octets whose version is not 2; CHK - every return of the XR chunk accessors selects the RFC 3611 bits and the terminating-null case is a comparison of the whole word with 0. Level other because StatusVectorChunk and RecvDelta are outside the engine (listed as not covered; C13 decides the delta width/scale) and the identity claim is for values that fit their wire width.",
+  note="Trusted: go/ssa, checker/bits transfer functions, layout tables in props/layout.go written from the RFCs, checker/pe and checker/num for VER/CNT.",
+  design="DESIGN.md §2 C16"),
  "C08": dict(
   level="other",
   technique="static analysis: abstract interpretation of go/ssa (linear constraints, exact fixed-width wrap-around) of every encoder with per-call-string narrowing obligations and an error-discipline rule",
